@@ -28,6 +28,7 @@ Three kinds of cases
          model (the few-chunk run on the other side of the same case is); the oracle judges all of them.
 """
 import contextlib
+import json
 import gzip
 import hashlib
 import itertools
@@ -64,7 +65,7 @@ TRUSTED = ['gzip DEcompression is MODELLED (Compress/Inflate.v: RFC 1952 contain
            'real z.compress wrapper, their strict prefixes, bit-flipped / cut / extended variants with zlib verdicts); proved of '
            'the model: prefix facts (law H3 for every accepted stream), trailer check, stored-encoder round trip, H1-H3 for the '
            'codec built from it. also proved: gunzip inverts four encoders (fixed-Huffman literals / runs, arbitrary LZ77 tokens with a greedy compressor, one dynamic-Huffman block with a fixed complete code). NOT proved: the inflate output on arbitrary dynamic codes and multi-block streams (comparison with zlib only); '
-           'zlib compressor; zstandard is not modelled at all',
+           'zlib compressor. zstandard: the frame STRUCTURE is modelled (Compress/ZstdFrame.v) and compared with the real library on the streams of the real zstd.compress wrapper every run, with the prefix theorems (truncation never mistaken for completion), a raw-block encoder round trip and H1-H3 for its codec proved; the content of compressed blocks and the XXH64 value are not modelled',
            'zlib compression and zstandard (C libraries) enter the wrapper theorems as Section variables '
            'cstep/cflush/dstep/deof/dflush constrained by the named hypotheses H1 (decoder output, raising and '
            'eof depend only on the concatenation fed, on prefixes of encoder output), H2 (decode(encode whole) = '
@@ -662,6 +663,12 @@ def generate(rng, tier):
         cases.append({'kind': 'gunzip', 'codec': 'gzip', 'seed': gr.randrange(10 ** 9),
                       'gen': gr.choice(['text', 'rand', 'rep', 'mixed', 'empty', 'one', 'words']),
                       'size': gr.choice([0, 1, 5, 60, 300, 900, 2500]), 'nchunks': gr.choice([1, 1, 2, 3, 5])})
+    # the Coq model of the zstd FRAME STRUCTURE (Compress/ZstdFrame.v) against the real zstandard library, on streams the
+    # REAL zstd.compress wrapper emits
+    for _ in range({'quick': 12, 'thorough': 140, 'search': 2}[tier]):
+        cases.append({'kind': 'zscan', 'codec': 'zstd', 'seed': gr.randrange(10 ** 9),
+                      'gen': gr.choice(['text', 'rand', 'rep', 'mixed', 'empty', 'one', 'words', 'rep']),
+                      'size': gr.choice([0, 1, 5, 60, 300, 900, 2500, 6000]), 'nchunks': gr.choice([1, 1, 2, 3, 5])})
     if tier != 'search':
         # generated last (the random stream of the families above is unchanged), then spread evenly over the list
         # so that the long Coq terms are spread over the shards, which are evaluated in parallel
@@ -860,9 +867,44 @@ def run_gunzip(case):
             'zlib_payload_ok': bool(v) and v[0] == 0 and v[1] == data, 'mutants': muts}
 
 
+def run_zscan(case):
+    import random
+    import zstandard
+    comp_op, _ = wrappers('zstd')
+    data = gunzip_payload(case)
+    r = random.Random(case['seed'] + 1)
+    k = case['nchunks']
+    cuts = sorted(r.randrange(len(data) + 1) for _ in range(k - 1))
+    chunks = [data[a:b] for a, b in zip([0] + cuts, cuts + [len(data)])]
+    steps = drive(comp_op(), chunks)
+    stream = payload(steps)
+    end = ending(steps)
+    pre = sorted(set(r.randrange(len(stream)) for _ in range(6))) if stream else []
+    trail = bytes(r.randrange(256) for _ in range(r.choice([0, 1, 5])))
+    # what the real library says: eof exactly on the full stream, the trailing bytes unused, the payload back
+    d = zstandard.ZstdDecompressor().decompressobj()
+    try:
+        out = d.decompress(stream + trail)
+        lib = {'eof': bool(d.eof), 'unused': list(d.unused_data), 'payload_ok': out == data}
+    except zstandard.ZstdError as e:
+        lib = {'error': str(e)[:80]}
+    pre_eof = []
+    for c in pre:
+        dd = zstandard.ZstdDecompressor().decompressobj()
+        try:
+            dd.decompress(stream[:c])
+            pre_eof.append(bool(dd.eof))
+        except zstandard.ZstdError:
+            pre_eof.append('error')
+    return {'stream': list(stream), 'cuts': pre, 'trail': list(trail), 'end': str(end), 'lib': lib, 'prefix_eof': pre_eof,
+            'n_payload': len(data)}
+
+
 def run_impl(case):
     if case['kind'] == 'gunzip':
         return run_gunzip(case)
+    if case['kind'] == 'zscan':
+        return run_zscan(case)
     comp_op, decomp_op = wrappers(case['codec'])
     if case['kind'] == 'resub':
         return run_resub(case)
@@ -996,6 +1038,15 @@ def oracle_resub(case, obs):
 def oracle(case, obs):
     if case['kind'] == 'resub':
         return oracle_resub(case, obs)
+    if case['kind'] == 'zscan':
+        if 'raised' in obs:
+            return {'sig': 'zstd:raised', 'what': 'wrapper raised %s to the caller' % obs['raised']}
+        lib = obs['lib']
+        if 'error' in lib or not lib['eof'] or lib['unused'] != obs['trail'] or not lib['payload_ok'] or any(obs['prefix_eof']):
+            return {'sig': 'zstd:stream-invalid', 'what': 'what zstd.compress emitted for %d bytes is not one complete frame of that '
+                    'payload for the zstandard library itself (%s; eof on strict prefixes: %s; wrapper ended %s)'
+                    % (obs['n_payload'], json.dumps(lib)[:160], obs['prefix_eof'], obs['end'])}
+        return None
     if case['kind'] == 'gunzip':
         if 'raised' in obs:
             return {'sig': 'gzip:raised', 'what': 'wrapper raised %s to the caller' % obs['raised']}
@@ -1050,6 +1101,8 @@ def nontrivial(case, obs):
         return False
     if case['kind'] == 'gunzip':
         return len(obs['payload']) >= 60
+    if case['kind'] == 'zscan':
+        return obs['n_payload'] >= 60
     if case['kind'] == 'toy':
         return len(case['chunks']) >= 2 and len(case['rechunk']) >= 2
     if case['kind'] == 'resub':
@@ -1062,7 +1115,8 @@ def nontrivial(case, obs):
 
 
 def describe(cases, obs):
-    keep = [(c, o) for c, o in zip(cases, obs) if c['kind'] != 'gunzip']
+    keep = [(c, o) for c, o in zip(cases, obs) if c['kind'] not in ('gunzip', 'zscan')]
+    zs_ = [(c, o) for c, o in zip(cases, obs) if c['kind'] == 'zscan' and 'raised' not in o]
     gz = [(c, o) for c, o in zip(cases, obs) if c['kind'] == 'gunzip' and 'raised' not in o]
     d = describe_wrappers([c for c, _ in keep], [o for _, o in keep])
     d['gzip_model_cases'] = {'streams': len(gz), 'max_stream_bytes': max([len(o['stream']) for _, o in gz] or [0]),
@@ -1071,6 +1125,9 @@ def describe(cases, obs):
                              'mutated_streams_by_zlib_verdict': {str(v): sum(1 for _, o in gz for m in o['mutants'] if m[1] == v) for v in (0, 1, 2)},
                              'first_block_types (BTYPE of the first deflate block)': {
                                  str(t): sum(1 for _, o in gz if len(o['stream']) > 10 and ((o['stream'][10] >> 1) & 3) == t) for t in (0, 1, 2)}}
+    d['zstd_frame_model_cases'] = {'streams': len(zs_), 'max_stream_bytes': max([len(o['stream']) for _, o in zs_] or [0]),
+                                   'prefix_cuts': sum(len(o['cuts']) for _, o in zs_),
+                                   'with_trailing_bytes': sum(1 for _, o in zs_ if o['trail'])}
     return d
 
 
@@ -1146,7 +1203,7 @@ def describe_wrappers(cases, obs):
 # ---------------------------------------------------------------------------------------------
 def coq_preamble():
     return ('From Coq Require Import List ZArith NArith Bool.\nImport ListNotations.\n'
-            'From RxVerif Require Import Compress.Inflate.\nFrom RxVerif Require Import Base.Corr Compress.Wrapper Compress.C16Corr.\n')
+            'From RxVerif Require Import Compress.ZstdFrame.\nFrom RxVerif Require Import Compress.Inflate.\nFrom RxVerif Require Import Base.Corr Compress.Wrapper Compress.C16Corr.\n')
 
 
 CTYPE = 'c16case'
@@ -1201,6 +1258,9 @@ def the_trace(case, obs):
 def coq_term(case, obs):
     if 'raised' in obs:
         return 'CRaised'
+    if case['kind'] == 'zscan':
+        zl = lambda l: '[' + '; '.join(str(x) for x in l) + ']%Z' if l else '(@nil Z)'
+        return 'CZstdScan %s [%s] %s' % (zl(obs['stream']), '; '.join('%d%%nat' % c for c in obs['cuts']), zl(obs['trail']))
     if case['kind'] == 'gunzip':
         zl = lambda l: '[' + '; '.join(str(x) for x in l) + ']%Z' if l else '(@nil Z)'
         return 'CGunzip %s %s [%s] [%s]' % (
@@ -1220,6 +1280,8 @@ def coq_term(case, obs):
 
 
 def coq_model_expr(case):
+    if case['kind'] == 'zscan':
+        return 'zstd_scan (zstd_raw [104; 105]%Z)'
     if case['kind'] == 'gunzip':
         return 'gunzip (gzip_stored [104; 105]%Z)'
     skip = c_bool(case['codec'] == 'zstd')
@@ -1247,7 +1309,7 @@ def neighbours(case, rng):
 
 
 CLAIM = {
-    'text': 'PARTIAL. zstandard and the zlib COMPRESSOR are not modelled; gzip DEcompression is (Inflate.v: full inflate with '
+    'text': 'PARTIAL. The zlib COMPRESSOR and the content of zstd compressed blocks are not modelled; the zstd frame structure is (ZstdFrame.v: complete / incomplete / invalid decided from headers and block headers, compared with the real library every run; a complete frame stays complete, a strict prefix is incomplete; C16_zstd_*); gzip DEcompression is (Inflate.v: full inflate with '
             'stored / fixed / dynamic Huffman blocks inside the gzip container, CRC-32 and ISIZE checked; three-valued answer Done / '
             'NeedMore / Bad), compared with the real zlib on every run, and for it are proved: a complete stream stays complete '
             'under appended bytes, NO strict prefix of a complete stream is complete (it is NeedMore, never Bad) - truncation is '
